@@ -286,9 +286,18 @@ def check_replace(ctx, R, kw, rng):
         changes += [{'until': kw['until'] + D.timedelta(days=5)}, {'until': kw['until'] - D.timedelta(days=1)}]
     else:
         changes += [{'count': 3}, {'until': st - D.timedelta(days=2)}, {'until': st}]
-    for ch in rng.sample(changes, 4):
+    # a parameter may also be replaced by None (= not given): switch the end condition, drop a BY-part
+    if 'count' in kw:
+        changes += [{'count': None, 'until': st + D.timedelta(days=40)}]
+    if 'until' in kw:
+        changes += [{'until': None, 'count': 4}]
+    for k in ('byweekday', 'bymonthday', 'bysetpos', 'byhour'):
+        if k in kw and ('count' in kw or 'until' in kw) and not (k == 'byweekday' and 'bysetpos' in kw):
+            changes += [{k: None}]
+    for ch in rng.sample(changes, min(5, len(changes))):
         merged = dict(kw)
         merged.update(ch)
+        merged = {k: v for k, v in merged.items() if v is not None or k in ('count', 'until')}
         a = outcome(lambda: list(itertools.islice(base.replace(**ch), 60)))
         b = outcome(lambda: list(itertools.islice(R.rrule(**merged), 60)))
         ctx.ev()
